@@ -54,6 +54,9 @@ type Conn struct {
 	localPeerID  core.PeerID
 	bandwidth    *bandwidth.Limiter
 
+	// Upper bound for the declared length of an incoming piece payload.
+	maxPieceLength int64
+
 	events Events
 
 	nc            net.Conn
@@ -106,6 +109,7 @@ func newConn(
 		createdAt:      clk.Now(),
 		localPeerID:    localPeerID,
 		bandwidth:      bandwidth,
+		maxPieceLength: info.MaxPieceLength(),
 		events:         events,
 		nc:             nc,
 		config:         config,
@@ -200,6 +204,10 @@ func (c *Conn) IsClosed() bool {
 }
 
 func (c *Conn) readPayload(length int32) ([]byte, error) {
+	if length < 0 || int64(length) > c.maxPieceLength {
+		return nil, fmt.Errorf(
+			"invalid payload length %d: max piece length is %d", length, c.maxPieceLength)
+	}
 	if err := c.bandwidth.ReserveIngress(int64(length)); err != nil {
 		c.log().Errorf("Error reserving ingress bandwidth for piece payload: %s", err)
 		return nil, fmt.Errorf("ingress bandwidth: %s", err)
@@ -221,6 +229,9 @@ func (c *Conn) readMessage() (*Message, error) {
 	if p2pMessage.Type == p2p.Message_PIECE_PAYLOAD {
 		// For payload messages, we must read the actual payload to the connection
 		// after reading the message.
+		if p2pMessage.PiecePayload == nil {
+			return nil, errors.New("piece payload message has no body")
+		}
 		payload, err := c.readPayload(p2pMessage.PiecePayload.Length)
 		if err != nil {
 			return nil, fmt.Errorf("read payload: %s", err)
